@@ -139,15 +139,61 @@ func searchGen(r *common.Rng, n int, shard int, out *common.Out) {
 			case 2:
 				cancel = r.Intn(3000)
 			}
+			if r.Chance(1, 6) {
+				// the same position loaded from FEN with the fifty-move counter close to its limit
+				h := []int{96, 97, 98, 99, 100, r.Intn(256)}[r.Intn(6)]
+				specs = append(specs, spec(withClock(pos.ToFen(), h), "", depth, cancel))
+			}
 			specs = append(specs, spec(startName, strings.Join(moves, " "), depth, cancel))
 			if len(poslib.Legal(&pos)) == 0 {
 				break
 			}
 		}
 		if len(specs) > 0 {
-			out.Line("%s", strings.Join(specs, " ;; "))
+			out.Line("%s", strings.Join(capCost(specs), " ;; "))
 		}
 	}
+}
+
+// capCost keeps a generated session affordable for the extracted model (which is some hundred times
+// slower than the engine): the session is run on the engine from cleared tables and, as long as it
+// visits more than maxCaseNodes nodes in all, the deepest search of the session loses one ply of depth.
+const maxCaseNodes = 12000
+
+func capCost(specs []string) []string {
+	tmp := fmt.Sprintf("%s/verif-cost-%d.out", os.TempDir(), os.Getpid())
+	defer os.Remove(tmp)
+	specs = append([]string(nil), specs...)
+	for round := 0; round < 12; round++ {
+		transpositiontable.VerifResetAll()
+		evaluation.VerifCacheClear()
+		var total uint64
+		for _, sp := range specs {
+			o, _, ok := runOneSearch(sp, tmp)
+			if ok {
+				total += o.nodes
+			}
+		}
+		if total <= maxCaseNodes {
+			break
+		}
+		best, bd := -1, 1
+		for i, sp := range specs {
+			f := strings.Split(sp, "|")
+			if d, _ := strconv.Atoi(f[2]); d > bd {
+				best, bd = i, d
+			}
+		}
+		if best < 0 {
+			break
+		}
+		f := strings.Split(specs[best], "|")
+		f[2] = strconv.Itoa(bd - 1)
+		specs[best] = strings.Join(f, "|")
+	}
+	transpositiontable.VerifResetAll()
+	evaluation.VerifCacheClear()
+	return specs
 }
 
 var reInfo = regexp.MustCompile(`^info depth (\d+) score cp (-?\d+) time \d+ nodes (\d+) nps -?\d+ hashfull (\d+) pv ?(.*)$`)
